@@ -1427,7 +1427,9 @@ func main() {
 		}
 		return
 	}
-	g := &gen{r: vx.NewRand(run.Seed), run: run}
+	// Fork: vx.NewRand(seed).U64() streams of neighbouring seeds are the same stream shifted by one draw
+	// (state = (seed+n)*golden + c), so the generator state is taken from the first output instead of the seed.
+	g := &gen{r: vx.NewRand(run.Seed).Fork(), run: run}
 	nBare, nOps, nTxn := 500, 45, 120
 	if run.Thorough() {
 		nBare, nOps, nTxn = 6000, 70, 1500
